@@ -51,6 +51,10 @@ func (c01) Gen(r *rand.Rand, tier string, run int) *core.Case {
 	big := r.IntN(150) == 0
 	for i := 0; i < n; i++ {
 		sz := sizes[r.IntN(len(sizes))]
+		if r.IntN(12) == 0 {
+			// beyond 64 KiB, anywhere in the sequence (chunked read paths)
+			sz = []int{65535, 65537, 70000, 100000, 131072, 196601, 1 << 20}[r.IntN(7)]
+		}
 		if big && i == n-1 {
 			sz = -1 // exactly the size limit
 		}
